@@ -94,7 +94,13 @@ impl Puppet {
     }
 
     pub fn spawn_with(args: &[OsString], env: Option<&[(OsString, OsString)]>) -> Puppet {
-        let mut c = Command::new(PUPPET_BIN);
+        Self::spawn_from(PUPPET_BIN, args, env)
+    }
+
+    /// Spawn the puppet program from another executable file (e.g. the position-dependent build, or a
+    /// copy that is unlinked afterwards).
+    pub fn spawn_from(exe: &str, args: &[OsString], env: Option<&[(OsString, OsString)]>) -> Puppet {
+        let mut c = Command::new(exe);
         c.args(args).stdin(Stdio::piped()).stdout(Stdio::piped()).stderr(Stdio::null());
         if let Some(e) = env {
             c.env_clear();
@@ -104,7 +110,21 @@ impl Puppet {
         }
         // own process group: a stray signal to the group never reaches the checker
         c.process_group(0);
-        let mut child = c.spawn().expect("cannot spawn puppet (run ./build.sh)");
+        // ETXTBSY: a freshly copied executable can still be open for writing in a child that another
+        // worker thread forked a moment ago (the descriptor leaks across fork until its exec): retry
+        let mut child = {
+            let mut tries = 0;
+            loop {
+                match c.spawn() {
+                    Ok(ch) => break ch,
+                    Err(e) if e.raw_os_error() == Some(libc::ETXTBSY) && tries < 200 => {
+                        tries += 1;
+                        std::thread::sleep(std::time::Duration::from_millis(5));
+                    }
+                    Err(e) => panic!("cannot spawn puppet {exe} (run ./build.sh): {e}"),
+                }
+            }
+        };
         let stdin = child.stdin.take().unwrap();
         let mut stdout = BufReader::new(child.stdout.take().unwrap());
         let mut line = String::new();
